@@ -64,6 +64,17 @@ def initUpdateRow (nOrig dim : Nat) (orig : Nat → List α) (row0 : List α) (n
     olds.foldl (fun acc j => acc + (orig j).getD d 0) (row0.getD d 0))
   if n = 0 then summed else summed.map (fun v => v / (n : α))
 
+/--
+  `init_transform(indices, weights, embedding)` (umap_.py; used by `inverse_transform` to place new points in
+  data space): row `i`, coordinate `d` is `Σ_j weights[i][j] * embedding[indices[i][j]][d]`, accumulated left to
+  right from `0`; `dim = embedding.shape[1]`.
+-/
+def initTransform (dim : Nat) (indices : List (List Nat)) (weights : List (List α)) (embedding : List (List α)) :
+    List (List α) :=
+  (indices.zip weights).map (fun iw =>
+    (List.range dim).map (fun d =>
+      (iw.1.zip iw.2).foldl (fun acc jw => acc + jw.2 * ((embedding.getD jw.1 []).getD d 0)) 0))
+
 end
 end Pipeline
 end Umap
